@@ -374,6 +374,7 @@ func checkC16(res *Result) {
 			}
 		}
 	}
+	checkRemoveMembership(res, p, "C16-R4")
 	for _, name := range []string{"add", "remove"} {
 		if fn := p.Func(name); fn != nil {
 			ff := computeFacts(fn)
@@ -453,4 +454,29 @@ func checkC16(res *Result) {
 func isURLParam(v ssa.Value) bool {
 	pa, ok := unwrap(v).(*ssa.Parameter)
 	return ok && typeIs(pa.Type(), "net/url", "URL")
+}
+
+// checkRemoveMembership: in remove's per-target closure an element of the target collection is
+// matched against the ids to remove by its id in the library's one sense — ToId(element) — in the
+// branch for unordered collections and in the branch for ordered ones alike (an element may be an
+// IRI or an embedded value in either).
+func checkRemoveMembership(res *Result, p *Pub, rule string) {
+	fn := p.Func("remove$1")
+	if fn == nil {
+		res.undecided(rule, "remove$1", "-", "per-target closure of remove found", "missing")
+		return
+	}
+	g := flowOf(fn)
+	n := 0
+	for _, b := range fn.Blocks {
+		for _, ins := range b.Instrs {
+			lk, ok := ins.(*ssa.Lookup)
+			if !ok || lk.X.Type().String() != "map[string]bool" {
+				continue
+			}
+			n++
+			res.check(anyBackward(g, lk.Index, func(x ssa.Value) bool { return isCallNamed(x, "ToId") }), rule, "remove$1", p.pos(lk), "an element is matched by ToId(element), whatever its spelling", "the key looked up does not come from ToId: elements of one spelling (an embedded value in an unordered collection, say) are never matched and stay in the collection")
+		}
+	}
+	res.Count(rule+" membership tests in remove (items and orderedItems branch)", n, 2)
 }
